@@ -397,6 +397,13 @@ func main() {
 	for i := 0; i < nRand; i++ {
 		mk(gen.RandomNet(rng, 5, []string{"add", "mult", "inc", "dec", "cpy"}))
 	}
+	// machines built with external inputs, external outputs and processors added in a shuffled order
+	for i := 0; i < nRand/5; i++ {
+		n := gen.RandomNet(rng, 4, []string{"add", "inc", "cpy", "dec"})
+		n.Family = "random-dag-interleaved-build"
+		n.BuildOrder = 1 + rng.Uint64()%1000003
+		mk(n)
+	}
 	// bonds without a processor on one or both ends: pass-through wires and tapped inputs
 	for i := 0; i < nRand/6; i++ {
 		mk(gen.RandomNetIO(rng, 3, []string{"add", "inc", "cpy"}))
